@@ -34,6 +34,8 @@ META['explanation'] += ' ' + "R8: a slice of the input bounded by a declared len
 
 META['explanation'] += ' ' + 'R4: the byte level primitives of ParserBinary are evaluated with the real struct module around every boundary. R7 follows chains of helper methods. R11: the identification string ends with its line feed, whatever follows (shared with C07.R6).'
 
+META['explanation'] += ' ' + 'R10 also: the ASN.1 decoder is not called in its strict mode (which refuses bytes after the value). R12: a frame whose parser reports a constant size pins its declared length to that size.'
+
 SIZE_ARGS = {
     'parse_raw': ['size'], 'parse_mpint': ['mpint_length'], 'parse_numeric_array': ['item_num'],
     'parse_parsable_array': ['items_size'], 'parse_parsable_derived_array': ['items_size'],
